@@ -711,3 +711,22 @@ Theorem C04_installed_call_decodes_witness : exists final img h2,
   bytes_at (flat img) 16 8 = JitReloc.le_bytes 8 1311768467463790320.
 Proof. exact installed_call_decodes_witness. Qed.
 Print Assumptions C04_installed_call_decodes_witness.
+
+(* ---- round 8: the LIST level (relocate_to_base's loop): over entries that do not go through the address table the loop succeeds exactly
+   when every single entry succeeds (C04_reloc_*_succeeds_iff give the per-kind conditions), and the slot table comes back unchanged ---- *)
+Theorem C04_relocate_all_complete : forall base asize atoff es slots, Forall no_table es ->
+  ((exists os s', relocate_all base asize atoff slots es = inl (os, s')) <-> Forall (succeeds base asize atoff []) es).
+Proof. exact relocate_all_complete. Qed.
+Print Assumptions C04_relocate_all_complete.
+
+Theorem C04_relocate_all_no_table_slots : forall base asize atoff es slots os s', Forall no_table es ->
+  relocate_all base asize atoff slots es = inl (os, s') -> s' = slots.
+Proof. exact relocate_all_no_table_slots. Qed.
+Print Assumptions C04_relocate_all_no_table_slots.
+
+Theorem C04_relocate_all_complete_witness :
+  Forall no_table [ex_abs_e 255; ex_expr_e (Some 127) (Some 0)] /\
+  (exists os s', relocate_all 4294967040 8 0 [] [ex_abs_e 255; ex_expr_e (Some 127) (Some 0)] = inl (os, s')) /\
+  ~ (exists os s', relocate_all 4294967040 8 0 [] [ex_abs_e 255; ex_abs_e 256] = inl (os, s')).
+Proof. exact relocate_all_complete_witness. Qed.
+Print Assumptions C04_relocate_all_complete_witness.
